@@ -2,7 +2,7 @@
 import ast
 
 from vstat.loader import AnalysisError
-from vstat.terms import builder, show, SELF, NONE, G, alts, walk, mentions, phi, subst, strip_none
+from vstat.terms import builder, guarded_alts, show, SELF, NONE, G, alts, walk, mentions, phi, subst, strip_none
 from vstat.guards import path_conditions
 from vstat.cfg import cfg_of
 from vstat.sigs import bind
@@ -419,19 +419,21 @@ def montecarlo(prog, rep):
         q = f"{JM}.GlobalHierarchicalModel.{name}"
         fn = prog.func(q)
         rep.analysed(fn)
-        b = builder(prog, fn, inline=False)
+        b = builder(prog, fn, inline=False, guarded=True)
+        pcs_ = path_conditions(prog, fn, b)
         rets = [s for s in cfg_of(fn).all_stmts() if isinstance(s, ast.Return)]
-        t = b.term(rets[-1].value, rets[-1])
         first = [p_ for p_ in fn.positional_params if p_ != "self"][0]
         d = ("sub", dists, P("dim"))
-        want = {("call", ("attr", d, meth), (P(first),), ()),
-                ("call", ("attr", d, meth), (P(first),), (("given", ("col", P("given"), ("sub", cond, P("dim")))),))}
-        ok = set(alts(t)) == want
-        if ok and isinstance(rets[-1].value, ast.Name):
-            pcs_ = path_conditions(prog, fn, b)
-            for dd in b.rd.reaching(rets[-1].value.id, rets[-1]):
-                tt = b.def_term(dd)
-                lit = ("isnone", ("sub", cond, P("dim")))
-                ok = ok and ((lit in pcs_.of(dd.stmt)) if not tt[3] else (("not", lit) in pcs_.of(dd.stmt)))
+        lit = ("isnone", ("sub", cond, P("dim")))
+        want = {(lit, ("call", ("attr", d, meth), (P(first),), ())),
+                (("not", lit), ("call", ("attr", d, meth), (P(first),), (("given", ("col", P("given"), ("sub", cond, P("dim")))),)))}
+        # every returned alternative (one joined result, early returns, a conditional expression) with its branch literals
+        got = set()
+        for r in rets:
+            for lits, v in guarded_alts(b.term(r.value, r)):
+                conds = [l for l in tuple(pcs_.of(r)) + tuple(lits)]
+                got.add((conds[0] if len(set(conds)) == 1 else ("and", tuple(conds)), v))
+        ok = got == want
+        t = phi(v for _l, v in got) if got else NONE
         rep.check(ok, "C16.mc", f"{q}:exact", fn.where(rets[-1]), f"distributions[dim].{meth}({first}[, given=given[:, conditional_on[dim]]])",
                   f"the exact conditional {meth} must be distributions[dim].{meth} of the argument given column conditional_on[dim] of given (same dim), on the right None-branch; found {show(t)[:200]}")
